@@ -401,6 +401,7 @@ func main() {
 			runParser(ctx)
 			runPipelines(ctx)
 		},
-		Replay: replay,
+		Replay:           replay,
+		CrashIsViolation: true, // a worker process that dies while it executes a case on the library is a verdict on that case
 	})
 }
